@@ -382,3 +382,42 @@ Proof.
   end; vm_compute; first [reflexivity | intros Hc; discriminate Hc].
 Qed.
 Print Assumptions C12_duality_hyps_sat.
+
+(* ================================================================== *)
+(* E. the clamp hypothesis of part C at the production constants                                    *)
+(*    (over the reals: the standard real-number axioms appear in Print Assumptions)                 *)
+(* ================================================================== *)
+From Coq Require Import Qreals.
+From RP Require Import Gen.GenLib Proofs.C12_ClampBound.
+From RP Require Spec.C09Spec.
+Close Scope Q_scope.
+Open Scope R_scope.
+
+(* with the clamp constant f32::MIN_POSITIVE = 2^-126 and any temperature T > 0: if the potentials are at
+   least -B, the ground distances (between the keys that occur) lie in [0,1] and B + 1/T <= 126 ln 2,
+   the clamp never fires *)
+Theorem C12_clamp_inactive_sufficient : forall (T B : R) (dist : N -> N -> R) (h : hist R) (pot : potential R),
+  0 < T ->
+  (forall xp, In xp pot -> - B <= snd xp) ->
+  (forall xp yq, In xp pot -> In yq h -> 0 <= dist (fst yq) (fst xp) <= 1) ->
+  B + 1 / T <= 126 * ln 2 ->
+  clamp_inactive T (/ 2 ^ 126) dist h pot.
+Proof. exact clamp_inactive_sufficient. Qed.
+Print Assumptions C12_clamp_inactive_sufficient.
+
+(* the hypotheses hold at the generated constants (SINKHORN_TEMPERATURE = 1/40, f32::MIN_POSITIVE = 2^-126;
+   real values through C09Spec.fconst_Q) with B = 20 (20 + 40 = 60 <= 126 ln 2 = 87.3...), for two buckets at
+   distance 1 with potentials 0 and -1; hence the clamp is inactive there *)
+Example C12_clamp_inactive_production_example :
+  let T := Q2R (C09Spec.fconst_Q SINKHORN_TEMPERATURE) in
+  let minpos := Q2R (C09Spec.fconst_Q F32_MIN_POSITIVE) in
+  let dist := fun a b : N => if N.eqb a b then 0 else 1 in
+  let h : hist R := [(0%N, / 2); (1%N, / 2)] in
+  let pot : potential R := [(0%N, 0); (1%N, - 1)] in
+  T = / 40 /\ minpos = / 2 ^ 126 /\ 0 < T /\
+  (forall xp, In xp pot -> - 20 <= snd xp) /\
+  (forall xp yq, In xp pot -> In yq h -> 0 <= dist (fst yq) (fst xp) <= 1) /\
+  20 + 1 / T <= 126 * ln 2 /\
+  clamp_inactive T minpos dist h pot.
+Proof. exact clamp_inactive_production_example. Qed.
+Print Assumptions C12_clamp_inactive_production_example.
